@@ -55,6 +55,7 @@ def main():
         rc, out = sh("%s -c \"import pyasn1,sys; print(pyasn1.__file__)\"" % PY, cwd=wt, env=env)
         if wt not in out:
             sys.exit("REJECT %s: tests did not import the worktree (%s)" % (name, out.strip()))
+        env = dict(env, PYTHONPATH=wt)  # demos import pyasn1 "from the current directory": make that hold for an absolute script path too
         rc1, out1 = sh("%s %s" % (PY, os.path.abspath(demo)), cwd=wt, env=env, timeout=600)
         ran.append("demo with change: exit %d: %s" % (rc1, out1.strip()[-300:]))
         if rc1 == 0:
